@@ -217,7 +217,10 @@ def partition_volume(volume: float, *, max_volume: Union[int, float]) -> List[fl
     # rounding the step up to whole µL must not exceed a non-integer max_volume
     step_volume = min(math.ceil(volume / isteps), max_volume)
     volumes: List[float] = [step_volume] * (isteps - 1)
-    volumes.append(min(volume - numpy.sum(volumes), max_volume))
+    rest = min(volume - numpy.sum(volumes), max_volume)
+    if rest > 0:
+        # (float division may count one step too many: 25.3 / 2.3 > 11, and nothing is left for step 12)
+        volumes.append(rest)
     return volumes
 
 
